@@ -335,8 +335,14 @@ InitSmall == (\E nsi \in {2, 6} : \E shs \in [1..Len(NameSeqs[nsi]) -> {Shape(1,
 
 \* M2: export the selected cases for the replay through the real code
 GMod == IF "VERIF_GMOD" \in DOMAIN IOEnv THEN atoi(IOEnv.VERIF_GMOD) ELSE 1
-Selected(c) == CASE c.fam = "flow" -> (c.id % Mod) = (Sd % Mod)
-                 [] c.fam = "grpc" -> (c.id % GMod) = (Sd % GMod)
+SMod == IF "VERIF_SMOD" \in DOMAIN IOEnv THEN atoi(IOEnv.VERIF_SMOD) ELSE 1
+RMod == IF "VERIF_RMOD" \in DOMAIN IOEnv THEN atoi(IOEnv.VERIF_RMOD) ELSE 1
+\* (ids are <structure> * 67 + <script>: both parts are mixed so that every residue class is a fair sample)
+Mix(id) == (id \div 67) * 5 + (id % 67)
+Selected(c) == CASE c.fam = "flow" -> (Mix(c.id) % Mod) = (Sd % Mod)
+                 [] c.fam = "grpc" -> (Mix(c.id) % GMod) = (Sd % GMod)
+                 [] c.fam = "src"  -> (c.id % SMod) = (Sd % SMod)
+                 [] c.fam = "ring" -> c.id >= 20600000 \/ (c.id % RMod) = (Sd % RMod)     \* (the big-weight rings always)
                  [] OTHER -> TRUE
 Export == (Done(st) /\ Selected(st.cs)) => PrintT(<<"VERIF", ToJson(st.cs)>>)
 
